@@ -106,6 +106,14 @@ def analyse_unit(r, tops, allowed_assumptions, support=None):
         rec = {'function': site['fn'], 'mode': f.mode, 'kind': e['message'], 'site_text': site['text'], 'site_origin': site['origin'], 'in_primary': site['fn'] in primary,
                'sites': e['sites'], 'rendered': e['rendered']}
         ovname, lo, hi = _overlay_span(f, r['origin'])
+        # did the change insert statements into this function (extractor: restructured_fns)?
+        crange = [o for o in r['origin'][f.start - 1:f.end] if o[0] == 'C']
+        if crange:
+            for fi in r['extract']['files']:
+                if fi['file'] == crange[0][1]:
+                    for a0, a1, n_ins in fi.get('restructured_fns', []):
+                        if any(a0 <= o[2] <= a1 for o in crange):
+                            rec['restructured'] = n_ins
         lost_here = [x for x in all_lost if lo is not None and lo <= x[1] <= hi]
         new_fn = f.mode == 'exec' and f.code_lines > 0 and lo is None and _new_function(f, r['origin'])
         if k == 'semantic' and new_fn:
@@ -401,7 +409,17 @@ def check_property(pid, tier, repo, scratch, seed):
                     return False
                 so = f.get('site_origin') or []
                 return bool(so) and so[0] == 'A'
-            if all(proof_internal(f) for f in new_fail):
+            def fits(f):
+                # the annotations of a function into which the change inserted statements were not written for those statements
+                if f.get('concrete_input') or (f.get('function') or '').startswith(('kani::', 'regression', 'panic injection')):
+                    return True
+                return not f.get('restructured')
+            if not any(fits(f) for f in new_fail):
+                for f in new_fail:
+                    inconclusive.append(dict(f, why='the change inserted %s statement line(s) into this function, so its annotations (written for the previous text) may simply '
+                                                    'no longer fit; no failing input was found on the real code: undecided' % f.get('restructured')))
+                new_fail = []
+            if new_fail and all(proof_internal(f) for f in new_fail):
                 for f in new_fail:
                     inconclusive.append(dict(f, why='the proof of the edited function no longer goes through (only proof-internal obligations failed); '
                                                     'no contract-level obligation failed and no failing input was found on the real code: undecided'))
